@@ -277,7 +277,9 @@ impl<const K: usize> AffTree<K> {
                 let mut skipped_children = 0;
                 let mut label_created = None;
 
-                for edg in lhs.tree.children(parent0_idx) {
+                let edges = lhs.tree.children(parent0_idx).collect_vec();
+                let n_edges = edges.len();
+                for (pos, edg) in edges.into_iter().enumerate() {
                     let child0_idx = edg.target_idx;
                     let child0 = edg.target_value;
                     let label = edg.label;
@@ -299,8 +301,11 @@ impl<const K: usize> AffTree<K> {
                         .add_child_node(parent1_idx, label, AffContent::new(child1_aff))
                         .unwrap();
 
-                    // Test feasibility of newly created edge, remove if infeasible
-                    if C::explore(rhs, parent1_idx, child1_idx) {
+                    // Test feasibility of newly created edge, remove if infeasible.
+                    // The last remaining child is always kept: a decision without children
+                    // would otherwise turn into a terminal that holds a predicate.
+                    let keep_last = created_children == 0 && pos + 1 == n_edges;
+                    if C::explore(rhs, parent1_idx, child1_idx) || keep_last {
                         stack.push((child0_idx, child1_idx));
                         created_children += 1;
                         n_nodes += 1;
